@@ -288,6 +288,9 @@ def run_trace_shard(ctx, st, shard, nshards, record_args, race=False):
     binder = ctx.binder_race if race else ctx.binder
     rcmd = [binder, "record", fam, "-seed", str(ctx.seed), "-shard", str(shard), "-of", str(nshards)] + [str(x) for x in record_args]
     renv = dict(os.environ)
+    # no-progress limit of the recorder's watchdog: the thorough tier makes legitimately slow calls (the exact tied
+    # Mann-Whitney distribution of a few hundred values takes minutes), the quick tier does not
+    renv.setdefault("VERIF_HANG_S", "3000" if ctx.tier == "thorough" else "180")
     if race:
         renv["GORACE"] = "exitcode=3 halt_on_error=1"
     with open(trace, "w") as tf:
